@@ -135,7 +135,7 @@ Cases ==
   \cup { << "vk", v >> : v \in 1..14 }
   \cup { << "dec", v >> : v \in 1..7 }
   \cup { << "dect", t >> : t \in 1..8 }
-  \cup { << "rec", v >> : v \in 1..17 }
+  \cup { << "rec", v >> : v \in 1..19 }
 
 AV(asig, pk, msg, enckey) == [ e |-> "AdaptorVerify", in |-> [ asig |-> asig, pk |-> pk, msg |-> msg, enckey |-> enckey ] ]
 AD(deckey, asig) == [ e |-> "AdaptorDecrypt", in |-> [ deckey |-> deckey, asig |-> asig ] ]
@@ -262,6 +262,8 @@ ExpandRec(v) ==
     [] v = 15 -> AR(cs(r, s), HSig, Ser65(HY))
     [] v = 16 -> AR(cs(r, s), HSig, << 2 >> \o NBytes(P))         \* invalid encryption key
     [] v = 17 -> AR(cs(r, SMul(s, Two)), HSig, y33)
+    [] v = 18 -> AR(cs(SAdd(r, One), SNeg(s)), HSig, y33)        \* the high-S twin with another r: s' / s still gives -y
+    [] v = 19 -> AR(cs(SAdd(r, One), s), HSig, Ser33(PNeg(HY)))
 
 \* X: the order-7/13/199 test groups (cfg: Cases <- TinyCases).  Scalars as 32-byte encodings including the
 \* overflow encodings; points restricted to the subgroup (the tiny curves have cofactors, the real one has not).
@@ -316,6 +318,12 @@ TinyVerifySound(i, o) ==
           LET d == AdDecrypt(NBytes(FromNat(y)), i.asig) IN
           d[1] = 1 /\ VerifyEq(d[2][1], d[2][2], i.msg, X) /\ AdRecover(d[2], i.asig, Y) = << 1, FromNat(y) >>
 
+ExpandSsp(v, op) ==
+  LET a == IF v = 1 THEN H3Sig ELSE SetField(H3Sig, 3, NBytes(Add(AdSp(H3Sig), N))) IN
+  CASE op = 1 -> AV(a, Ser33(HX), H3Msg, Ser33(HY))
+    [] op = 2 -> AD(HDec, a)
+    [] op = 3 -> AR(SigBytes(H3Obj), a, Ser33(HY))
+
 Expand(c) ==
   CASE c[1] = "pipe"  -> ExpandPipe(c[2], c[3], c[4], c[5])
     [] c[1] = "twin"  -> ExpandTwin(c[2], c[3], c[4], c[5])
@@ -326,10 +334,7 @@ Expand(c) ==
     [] c[1] = "flipm" -> AV(HSig, Ser33(HX), FlipBit(HMsg, c[2]), Ser33(HY))
     [] c[1] = "flipk" -> IF c[2] = 1 THEN AV(HSig, FlipBit(Ser33(HX), c[3]), HMsg, Ser33(HY))
                          ELSE AV(HSig, Ser33(HX), HMsg, FlipBit(Ser33(HY), c[3]))
-    [] c[1] = "ssp"   -> LET a == IF c[2] = 1 THEN H3Sig ELSE SetField(H3Sig, 3, NBytes(Add(AdSp(H3Sig), N))) IN
-                         CASE c[3] = 1 -> AV(a, Ser33(HX), H3Msg, Ser33(HY))
-                           [] c[3] = 2 -> AD(HDec, a)
-                           [] c[3] = 3 -> AR(SigBytes(H3Obj), a, Ser33(HY))
+    [] c[1] = "ssp"   -> ExpandSsp(c[2], c[3])
     [] c[1] = "scal"  -> ExpandScal(c[2], c[3], c[4])
     [] c[1] = "pt"    -> ByOp(c[4], SetField(HSig, c[2], PointVariant(HSig, c[2], c[3])))
     [] c[1] = "vk"    -> ExpandVk(c[2])
